@@ -15,7 +15,12 @@ def build(run, thorough):
     crng = random.Random(run.seed * 31337 + (5 if thorough else 4))
     progs = []
     while len(progs) < (14 if thorough else 5):
-        p = gen.gen_l2_program(crng, name_classes=NF_CLASSES)
+        # (every second contract has its own error type; every instantiate message has a String argument, through which a
+        #  history can make the handler fail with a StdError or with the contract's own error)
+        p = gen.gen_l2_program(crng, name_classes=NF_CLASSES, error=("custom" if len(progs) % 2 else None))
+        inst = [m for m in p.methods if m.kind == "instantiate"][0]
+        if not any(a.ty.rust() == "String" for a in inst.args):
+            inst.args.append(gen.Arg("memo_s", gen.P("String")))
         progs.append(p)
     c = corpus.Corpus(progs, tag="mt_%s" % ("t" if thorough else "q"), mt=True).build()
     return c
@@ -43,7 +48,8 @@ def gen_history(rng, p):
             t = p.concretize(a.ty, iface)
             v = gen_value(rng, t)
             if fail and t.rust() == "String":
-                v = "__fail__"
+                # a StdError, or (contracts with their own error type) a value of that type
+                v = "__failcustom__" if (p.error == "custom" and rng.random() < 0.5) else "__fail__"
             out.append(v)
         return out
 
